@@ -1,8 +1,54 @@
-(* C21 — property theorems (placeholder while the proofs are being developed) *)
+(* C21 — property theorems only: each closed by [exact lemma], followed by Print Assumptions. *)
 From Coq Require Import List NArith ZArith Bool.
-From Verif Require Import Common.Rose C21.Model.
+From Verif Require Import Common.Rose C21.Model C21.Proof C21.Examples.
 Import ListNotations.
+Open Scope Z_scope.
 
-Theorem C21_quote_is_identity : forall mk b, fast_quote mk b = classic_quote mk b.
-Proof. reflexivity. Qed.
+(* ~quote{X}: both interpreters return the syntax tree of X itself — the body block, or its only statement with
+   its ExprStmt/ParenExpr/DeclStmt wrapper removed, or an empty statement; nothing is evaluated or copied *)
+Theorem C21_quote_is_identity : forall mk i a k,
+  fast_quote mk (Slice i SBlock a k) =
+    match k with [] => empty_stmt mk | [x] => simplify1 x | _ => Slice i SBlock a k end
+  /\ classic_quote mk (Slice i SBlock a k) = fast_quote mk (Slice i SBlock a k).
+Proof. exact quote_identity. Qed.
 Print Assumptions C21_quote_is_identity.
+
+(* the fast algorithm as written (three cases, depth arithmetic, splice flag, deep-splice path through
+   DescendNestedUnquotes / CollectNestedUnquotes / MakeNestedQuote) computes the compositional Common-Lisp style
+   substitution [sq] — for ALL templates, depths and environments: whenever the specification is defined on a tidy
+   template, the implementation returns exactly that tree and that splice flag.
+   Tidy excludes only the shapes of known findings C21-paren / C21-nested-block under a nested unquote. *)
+Theorem C21_qq_matches_spec : forall mk ev,
+  (forall x, unq_chain x <> None -> ev x = Err) ->
+  forall fuel d t r, 1 <= d -> Tidy mk t -> sq mk ev fuel d t = Ok r -> fq mk ev fuel d t = Ok r.
+Proof. exact fq_sq. Qed.
+Print Assumptions C21_qq_matches_spec.
+
+(* the splice flag of a form is raised exactly when it is a chain of nested unquotes, at least as long as the
+   current depth, whose innermost operator is ~unquote_splice (innermost unquote pairs with outermost quasiquote) *)
+Theorem C21_splice_only_along_chains : forall mk ev,
+  (forall x, unq_chain x <> None -> ev x = Err) ->
+  forall fuel d t x, 1 <= d -> Tidy mk t -> sq mk ev fuel d t = Ok (x, true) ->
+  exists ops last, unq_chain t = Some (ops, last) /\ d <= Z.of_nat (length ops) /\ last_op ops = UNQUOTE_SPLICE.
+Proof. exact sq_flag. Qed.
+Print Assumptions C21_splice_only_along_chains.
+
+(* fast = classic does NOT hold on the faithful models: four witnesses, each reproduced on the real interpreters
+   (corpus stream of harness/cmd/c21, known findings C21-paren, C21-nested-block, C21-top-splice-short, C21-nested-empty-body) *)
+Theorem C21_fast_eq_classic_refuted :
+  differ W_paren [] /\ differ W_block env_bv /\ differ W_short env_le1 /\ differ W_empty [].
+Proof. exact (conj differ_paren (conj differ_block (conj differ_short differ_empty))). Qed.
+Print Assumptions C21_fast_eq_classic_refuted.
+
+(* nested quasiquotes: the innermost unquote pairs with the outermost quasiquote, in both interpreters *)
+Example C21_ex_pairing :
+  fast_qq mk0 (ev_of env1) (fuel_for T1) T1 = Ok (Some R1) /\ classic_qq mk0 (ev_of env1) (fuel_for T1) T1 = Ok (Some R1).
+Proof. exact (conj ex_pairing_fast ex_pairing_classic). Qed.
+Example C21_ex_depth3 :
+  fast_qq mk0 (ev_of env1) (fuel_for T2) T2 = Ok (Some R2) /\ classic_qq mk0 (ev_of env1) (fuel_for T2) T2 = Ok (Some R2).
+Proof. exact (conj ex_depth3_fast ex_depth3_classic). Qed.
+(* the premises of C21_qq_matches_spec are satisfiable on these nested templates *)
+Example C21_ex_premises :
+  (forall env x, unq_chain x <> None -> ev_of env x = Err) /\ Tidy mk0 (body_of T1) /\ Tidy mk0 (body_of T2) /\
+  (exists r, sq mk0 (ev_of env1) 40 1 (body_of T2) = Ok r /\ fq mk0 (ev_of env1) 40 1 (body_of T2) = Ok r).
+Proof. exact (conj ev_of_unq (conj ex_T1_tidy (conj ex_T2_tidy ex_T2_spec))). Qed.
